@@ -347,6 +347,10 @@ def specs(tier):
                 if n:
                     bad[0] = m + 5            # out of range index with bounds checking ON must be ignored, not written
                     yield Call(k, [A(np.zeros(m, np.float32), "io"), A(bad), A(np.ones(n, np.float32)), I(1), I(n), I(m)], ret="v", note="boundscheck=1")
+                    for edge in (m, -1, m + 1, -m - 1):          # the first index past either end, and its neighbours
+                        bad2 = ind.copy()
+                        bad2[n - 1] = edge
+                        yield Call(k, [A(np.zeros(m, np.float32), "io"), A(bad2), A(np.ones(n, np.float32)), I(1), I(n), I(m)], ret="v", note="boundscheck=1 edge %d" % edge)
     yield "scoring_kernels", g_scoring
 
     def g_geometry():
@@ -358,6 +362,12 @@ def specs(tier):
             yield Call("compute_geometry", [A(xyz), A(om), D(1.0), D(0.3), D(1.5), D(-0.7), A(t), A(np.zeros((n, 6)), "out"), I(n)], ret="v")
             yield Call("compute_xlylzl", [A(np.arange(n) * 1.5), A(np.arange(n) * 0.5), A(np.array([1000.0, 1000.0, 50.0, 50.0])), A(np.eye(3).ravel()),
                                           A(np.array([1e5, 0, 0.0])), A(np.zeros((n, 3)), "out"), I(n)], ret="v")
+        # degenerate rows: a spot exactly at the grain origin (zero-padded tables), on the beam axis, omega of 1e6 degrees
+        for tvec in (np.zeros(3), np.array([10.0, -20.0, 30.0])):
+            xyz = np.ascontiguousarray(np.array([[1e5, 0.0, 0.0], tvec, [0.0, 0.0, 0.0], [1e5, 3e3, -4e3], [-1e5, 0.0, 0.0]]))
+            om = np.array([0.0, 90.0, 1e6, -33.0, 180.0])
+            yield Call("compute_gv", [A(xyz), A(om), D(1.0), D(0.3), D(0.0), D(0.0), A(tvec), A(np.zeros((5, 3)), "out"), I(5)], ret="v")
+            yield Call("compute_geometry", [A(xyz), A(om), D(1.0), D(0.3), D(0.0), D(0.0), A(tvec), A(np.zeros((5, 6)), "out"), I(5)], ret="v")
         ubi = np.array([[1.0, 0, 0], [0, 1.0, 0], [0, 0, 0.0]])
         yield Call("quickorient", [A(ubi, "io"), A(np.eye(3))], ret="v")
     yield "geometry_kernels", g_geometry
